@@ -49,8 +49,13 @@ def sketch(draw, loop_button=False):
             lines += [f"def click{i}():", f"    mon.write('@click{i}')"]
     lines.append("mon = SerialMonitor(9600)")
     decl_loop = []
+    # two Button objects may watch the same pin (e.g. one with a handler, one polled): each keeps its own edge memory
+    bpins = [BTN_PINS[i] for i in range(nb)]
+    if nb >= 2 and not loop_button and draw(st.integers(0, 3)) == 0:
+        j = draw(st.integers(1, nb - 1))
+        bpins[j] = bpins[draw(st.integers(0, j - 1))]
     for i in range(nb):
-        d = f"btn{i} = Button({BTN_PINS[i]}" + (f", on_click=click{i})" if i in cb else ")")
+        d = f"btn{i} = Button({bpins[i]}" + (f", on_click=click{i})" if i in cb else ")")
         if loop_button and i == 0:
             decl_loop.append(d)
         else:
@@ -88,12 +93,14 @@ def sketch(draw, loop_button=False):
     if not body:
         body = ["sleep(1)"]
     lines += ["while True:"] + ["    " + b for b in body]
-    return {"src": "\n".join(lines) + "\n", "nb": nb, "npot": npot, "nus": nus, "cb": sorted(cb), "loop_button": loop_button}
+    return {"src": "\n".join(lines) + "\n", "nb": nb, "npot": npot, "nus": nus, "cb": sorted(cb), "loop_button": loop_button, "bpins": bpins}
 
 
 @st.composite
 def tape(draw, n):
     levels = {}
+    n_passes = n
+    n = 3 * (n + 1)  # a pin shared by several Button objects is read once per button and pass
     for p in BTN_PINS:
         style = draw(st.sampled_from(["random", "held", "bounce", "press_release", "start_pressed", "all_low"]))
         if style == "random":
@@ -109,6 +116,7 @@ def tape(draw, n):
         else:
             seq = [0] * (n + 1)
         levels[p] = seq
+    n = n_passes
     analog = {p: draw(st.lists(st.sampled_from([0, 1, 511, 512, 1022, 1023]) | st.integers(0, 1023), min_size=3 * n, max_size=3 * n)) for _, p in POT_PINS}
     pulse = {}
     for _, e in US_PINS:
@@ -162,19 +170,24 @@ def model_check(sk, tp, n, trace):
         return [("phase-structure", "setup + n passes", [p["name"] for p in phases])]
     setup, loops = phases[0]["ev"], [p["ev"] for p in phases[1:-1]]
     # ---------------- buttons
+    bpins = sk.get("bpins") or [BTN_PINS[i] for i in range(sk["nb"])]
     for i in range(sk["nb"]):
-        pin = BTN_PINS[i]
-        init = [int(a.split()[1]) for _, k, a in setup if k == "DR" and int(a.split()[0]) == pin]
+        pin = bpins[i]
+        sharers = [j for j in range(sk["nb"]) if bpins[j] == pin]   # buttons on this pin, in declaration (= polling) order
+        slot, share = sharers.index(i), len(sharers)
+        init_all = [int(a.split()[1]) for _, k, a in setup if k == "DR" and int(a.split()[0]) == pin]
         in_loop = sk["loop_button"] and i == 0
-        if not in_loop and len(init) != 1:
-            fails.append(("button-initial-sample", f"one initial digitalRead({pin}) in setup()", len(init)))
+        if not in_loop and len(init_all) != share:
+            fails.append(("button-initial-sample", f"one initial digitalRead({pin}) per button in setup()", len(init_all)))
+        init = init_all[slot:slot + 1] if len(init_all) == share else init_all[:1]
         prev = init[0] if init else 0
         samples = []
         for kpass, ev in enumerate(loops):
-            drs = [int(a.split()[1]) for _, k, a in ev if k == "DR" and int(a.split()[0]) == pin]
-            if len(drs) != 1:
-                fails.append(("button-sampled-not-once-per-pass", f"pass {kpass}: exactly one digitalRead({pin})", len(drs)))
+            drs_all = [int(a.split()[1]) for _, k, a in ev if k == "DR" and int(a.split()[0]) == pin]
+            if len(drs_all) != share:
+                fails.append(("button-sampled-not-once-per-pass", f"pass {kpass}: exactly one digitalRead({pin}) per button ({share})", len(drs_all)))
                 break
+            drs = drs_all[slot:slot + 1]
             s = drs[0]
             samples.append(s)
             clicks = sum(1 for _, k, a in ev if k == "SER" and a == f"@click{i}")
@@ -266,7 +279,7 @@ def model_check(sk, tp, n, trace):
 
 
 def nontrivial(sk, tp, n):
-    for p in BTN_PINS[: sk["nb"]]:
+    for p in sorted(set(sk.get("bpins") or BTN_PINS[: sk["nb"]])):
         seq = tp["digital"][p]
         rising = sum(1 for a, b in zip(seq, seq[1:]) if a == 0 and b == 1)
         held = any(a == 1 and b == 1 for a, b in zip(seq, seq[1:]))
